@@ -45,6 +45,8 @@ pub enum Pair {
     /// promise j is replaced by this (valid) promise in the second run; used for boundary pairs such
     /// as absent vs u64::MAX at 64 bits
     PromiseTo { j: usize, to: Option<u64> },
+    /// the promises of openings j and j2 are exchanged (both runs valid): same promise values, other positions
+    PromiseSwap { j: usize, j2: usize },
     /// opening j has different blindings, hence a different commitment
     Commitment { j: usize },
     /// the statement is proved at a different bit length
@@ -173,6 +175,19 @@ fn sides(sc: &Scenario) -> Option<(Side, Side)> {
             let cur = w.promises[jj].unwrap_or(0);
             let new = if cur > 0 { cur - 1 } else if w.values[jj] > 0 { 1 } else { return None };
             w2.promises[jj] = Some(new);
+            Some((
+                build_side(cfg, w, &sc.ctx, free_pedersen(cfg.ext), none),
+                build_side(cfg, &w2, &sc.ctx, free_pedersen(cfg.ext), none),
+            ))
+        },
+        Pair::PromiseSwap { j, j2 } => {
+            let (a, b) = (*j % cfg.m, *j2 % cfg.m);
+            let (pa, pb) = (w.promises[a].unwrap_or(0), w.promises[b].unwrap_or(0));
+            if a == b || pa == pb || pa > w.values[b] || pb > w.values[a] {
+                return None;
+            }
+            let mut w2 = w.clone();
+            w2.promises.swap(a, b);
             Some((
                 build_side(cfg, w, &sc.ctx, free_pedersen(cfg.ext), none),
                 build_side(cfg, &w2, &sc.ctx, free_pedersen(cfg.ext), none),
@@ -371,6 +386,7 @@ fn execute(sc: &Scenario, st: &mut RunStats) -> Vec<Violation> {
         Pair::ValueTrade { .. } => "value_trade_same_commitment",
         Pair::Context => "context",
         Pair::Promise { .. } | Pair::PromiseTo { .. } => "promise",
+        Pair::PromiseSwap { .. } => "promise_positions",
         Pair::Commitment { .. } => "commitment",
         Pair::Bits => "bits",
     }));
@@ -559,6 +575,20 @@ impl Check for C14 {
                 Pair::ValueTrade { j }
             },
             3 => Pair::Context,
+            4 if cfg.m >= 2 && rng.chance(1, 3) => {
+                // the same promise values on other positions: [Some(p), None] vs [None, Some(p)]
+                let j2 = (j + 1) % cfg.m;
+                let lo = wit.values[j].min(wit.values[j2]);
+                if lo == 0 {
+                    wit.values[j] = wit.values[j].max(1);
+                    wit.values[j2] = wit.values[j2].max(1);
+                }
+                let lo = wit.values[j].min(wit.values[j2]);
+                wit.promises[j] = Some(1 + rng.below(lo));
+                wit.promises[j2] = None;
+                wit.same_as_prev.clear();
+                Pair::PromiseSwap { j, j2 }
+            },
             4 if rng.chance(1, 3) => {
                 // boundary pair: the value sits at the top of the range, the promise goes from
                 // absent (or 1) to the value itself; at 64 bits that is u64::MAX
@@ -647,7 +677,7 @@ impl Check for C14 {
     fn required_probes(&self, _tier: Tier) -> Vec<&'static str> {
         vec![
             "pair_identical", "pair_blinding_shift_same_commitment", "pair_value_trade_same_commitment", "pair_context",
-            "pair_promise", "pair_commitment", "pair_bits", "seeded", "unseeded", "same_commitment_different_witness",
+            "pair_promise", "pair_promise_positions", "pair_commitment", "pair_bits", "seeded", "unseeded", "same_commitment_different_witness",
             "rng_all_zero", "rng_all_ones", "rng_constant_byte", "rng_short_period", "rng_counter", "rng_stuck_after",
             "rng_replay", "rng_zero_block_at", "rng_repeat_block_at", "public_candidates_tried",
         ]
